@@ -192,8 +192,18 @@ func (fr *Frame) cutLoop(b *ssa.BasicBlock, preds []*ssa.BasicBlock, ins []edgeI
 		fr.env[phi] = v
 		e.assume("true", e.typeFacts(v, h))
 		if phi.Comment == "rangeindex" && v.K == kScalar {
-			// go/ssa lowers "for i := range s" to an index starting at -1 and incremented at the loop head
+			// go/ssa lowers "for i := range s" to an index starting at -1 and incremented at the loop head,
+			// re-entering the head only after "index+1 < len" held: -1 <= index < len (for a non-empty range)
 			e.assume("true", sx(">=", v.S, "(- 1)"))
+			for _, hin := range b.Instrs {
+				if bo, ok := hin.(*ssa.BinOp); ok && bo.Op == token.LSS {
+					if add, ok := bo.X.(*ssa.BinOp); ok && add.Op == token.ADD && add.X == ssa.Value(phi) {
+						if lv, ok := fr.env[bo.Y]; ok && lv.K == kScalar {
+							e.assume("true", or(eq(v.S, "(- 1)"), sx("<", v.S, lv.S)))
+						}
+					}
+				}
+			}
 		}
 	}
 	st.heap = h
